@@ -34,7 +34,7 @@ FUNCTIONS = ["stackscope._glue.glue_trio.unwrap_task", "stackscope._glue.glue_tr
 # block_where: -1 = block in the innermost body (after opening all nurseries);
 #              i  = do not go deeper than nursery i: fall out of its body and block in its __aexit__
 # body_end: how the nursery body ends (decides the bytecode shape the exiting-context analysis sees)
-BODY_ENDS = ["plain", "try_finally", "try_except", "if_return", "same_frame"]
+BODY_ENDS = ["plain", "try_finally", "try_except", "if_return", "same_frame", "acm", "start"]
 
 
 def task_shapes(depth: int, fan: int, nmax: int, small_cap: int = 3, opt_cap: int = 4) -> List[Any]:
@@ -133,7 +133,42 @@ def run_tree(spec: Any, body_end: str, recurse: bool) -> Dict[str, Any]:
                     if where != 1:
                         await block()
 
-    NEST = {"plain": nest_plain, "try_finally": nest_try_finally, "try_except": nest_try_except, "if_return": nest_if_return,
+    @contextlib.asynccontextmanager
+    async def helper_nursery() -> Any:
+        async with trio.open_nursery() as n:
+            yield n
+
+    async def nest_acm(sp: Any, i: int, tid: int) -> Any:
+        """The nursery is opened by an @asynccontextmanager helper: its context lives in the helper's inner stack."""
+        nurseries, where = sp
+        if i == len(nurseries):
+            return await block()
+        async with helper_nursery() as n:
+            for child in nurseries[i]:
+                n.start_soon(run_task, child)
+            if where != i:
+                await NEST[body_end](sp, i + 1, tid)
+
+    async def started_task(sp: Any, task_status: Any = trio.TASK_STATUS_IGNORED) -> None:
+        t = trio.lowlevel.current_task()
+        tid = len(reg)
+        reg[tid] = (t, sp)
+        task_status.started()
+        await NEST[body_end](sp, 0, tid)
+
+    async def nest_start(sp: Any, i: int, tid: int) -> Any:
+        """Children are started with `await nursery.start(...)` (they call started() at once and so have moved from
+        Trio's hidden helper nursery into this one by the time anything is observed)."""
+        nurseries, where = sp
+        if i == len(nurseries):
+            return await block()
+        async with trio.open_nursery() as n:
+            for child in nurseries[i]:
+                await n.start(started_task, child)
+            if where != i:
+                await NEST[body_end](sp, i + 1, tid)
+
+    NEST = {"plain": nest_plain, "acm": nest_acm, "start": nest_start, "try_finally": nest_try_finally, "try_except": nest_try_except, "if_return": nest_if_return,
             "same_frame": nest_same_frame}
 
     async def run_task(sp: Any) -> None:
@@ -169,6 +204,8 @@ def nursery_contexts(st: Stack) -> List[Context]:
         for c in f.contexts:
             if isinstance(c.obj, trio.Nursery):
                 out.append(c)
+            if c.inner_stack is not None:  # a generator-based manager: what it holds open nests inside it
+                out.extend(nursery_contexts(c.inner_stack))
     return out
 
 
@@ -202,7 +239,7 @@ def compare_task(st: Stack, task: Any, recurse: bool, res: Dict[str, Any]) -> Op
     # blocking point: the innermost visible frame is where the task waits
     vis = [f for f in st.frames if not f.hide]
     last = vis[-1].funcname
-    if last not in ("wait", "nest_plain", "nest_try_finally", "nest_try_except", "nest_if_return", "_nested_child_finished", "__aexit__"):
+    if last not in ("wait", "nest_plain", "nest_try_finally", "nest_try_except", "nest_if_return", "nest_acm", "nest_start", "_nested_child_finished", "__aexit__"):
         return f"{task.name}: innermost visible frame is {last}"
     return None
 
